@@ -868,6 +868,30 @@ def run_resolution(pid: str, col: Collector, seed: int, n: int, focus: Optional[
         col.add(vs)
         done_docs += 1
     col.bound_parts.append(f"{done_docs} citation lists extracted by get_citations from generated documents (sampled, all prefixes for C08)")
+    # optional: the shared document generator of /verif/props/gen.py, when it exists (never required)
+    try:
+        import gen as _gen  # type: ignore
+        shared = 0
+        for case in _gen.documents(seed, max(10, n // 6), focus=None):
+            if time.time() > t_docs:
+                break
+            text = case.get("text")
+            if not isinstance(text, str):
+                continue
+            inp = {"kind": "text", "text": text}
+            try:
+                cits = list(get_citations(text))
+            except Exception:
+                continue
+            if len(cits) > 60:
+                continue
+            vs, _ = check_list(pid, cits, inp, obs=col.observe)
+            col.count_case(text)
+            col.add(vs)
+            shared += 1
+        col.bound_parts.append(f"{shared} citation lists extracted from documents of props/gen.py (regression corpus + generated)")
+    except Exception:
+        pass
 
     # ---- layer 1/2: small-scope exhaustive enumeration
     alphabet_names: List[Any] = list(CORE)
@@ -1181,13 +1205,15 @@ def gen_case_C09(rng: random.Random) -> Dict[str, Any]:
     return {"plain": plain, "annotations": anns, "source": source, "mode": mode, "use_dmp": rng.random() < 0.6}
 
 
+_S0, _S1, _S2, _S3 = chr(SENT0), chr(SENT0 + 1), chr(SENT0 + 2), chr(SENT0 + 3)
 FIXED_C09 = [
-    {"plain": "<i>Id. at 3; id.</i> at 5", "annotations": [[0, 11, "", ""], [13, 25, "", ""]],
+    # DESIGN section 7 row 9 without and with a source text, row 10 with both engines
+    {"plain": "<i>Id. at 3; id.</i> at 5", "annotations": [[3, 11, _S0, _S1], [13, 25, _S2, _S3]],
      "source": None, "mode": "skip", "use_dmp": True},
-    {"plain": "ab", "annotations": [[1, 1, "", ""]], "source": "a<i>b", "mode": "unchecked", "use_dmp": True},
-    {"plain": "ab", "annotations": [[1, 1, "", ""]], "source": "a<i>b", "mode": "unchecked", "use_dmp": False},
-    {"plain": "Id. at 3; id. at 5", "annotations": [[0, 8, "", ""], [10, 18, "", ""]],
+    {"plain": "Id. at 3; id. at 5", "annotations": [[0, 8, _S0, _S1], [10, 18, _S2, _S3]],
      "source": "<i>Id. at 3; id.</i> at 5", "mode": "skip", "use_dmp": True},
+    {"plain": "ab", "annotations": [[1, 1, _S0, _S1]], "source": "a<i>b", "mode": "unchecked", "use_dmp": True},
+    {"plain": "ab", "annotations": [[1, 1, _S0, _S1]], "source": "a<i>b", "mode": "unchecked", "use_dmp": False},
 ]
 
 
@@ -1506,7 +1532,7 @@ def _check_C11(case: Dict[str, Any], obs: Optional[Callable[..., None]] = None) 
         root = _parse_fragment(out)
     except etree.XMLSyntaxError as e:
         vs.append(viol("output_well_formed", case, plain=plain, output=out, error=str(e)[:120], region=region))
-    if mode == "skip":
+    if mode == "skip" and "<a" not in source and "</a" not in source:
         for k, b in enumerate(befores):
             i = out.find(b)
             if i < 0:
@@ -2130,6 +2156,58 @@ def run_C20(col: Collector, seed: int, n: int, focus: Optional[str], hints: Any)
 # =====================================================================================================
 # drivers
 # =====================================================================================================
+
+CLAUSE_READINGS: Dict[str, Dict[str, str]] = {
+    "C06": {
+        "values_are_disjoint_subsequences": "every member of every value list IS (identity) an input citation; within a list the input indices strictly increase; no input index occurs twice over all lists",
+        "first_is_full": "every value list is non-empty and its first member is a FullCitation",
+        "every_full_exactly_once": "every FullCitation of the input occurs in exactly one list, once",
+        "share_iff_equal": "for two full citations: same list <=> a == b; for two FullCaseCitations additionally same list <=> same (volume, corrected_reporter(), page) with page not None (other kinds: the code's == is taken as the meaning of 'equal')",
+        "unknown_never_appears": "no UnknownCitation in any list",
+        "raised:<Exc>": "resolve_citations (or a real method used by a clause) raised",
+    },
+    "C07": {
+        "attached_only_if_unique_match": "a short/supra/reference citation that is listed under a resource is listed under THE resource the statement allows: short -- the unique resource among earlier FullCaseCitations with equal corrected_reporter() and volume, or the unique one among them whose plaintiff/defendant contains strip_punct(antecedent_guess); supra -- the unique resource of earlier FullCaseCitations whose plaintiff/defendant contains strip_punct(antecedent_guess) (antecedent non-empty); reference -- the unique resource of earlier FullCaseCitations one of whose four name fields equals one of the reference's (non-empty)",
+        "unresolved_when_none_or_many": "fires in addition when the citation is attached although no unique match exists (none, or two or more distinct resources)",
+        "id_only_predecessor": "an attached id. citation is in the same list as the citation immediately before it",
+        "id_unresolved_when_prev_unresolved": "an id. citation is attached although it is first or its predecessor is in no list",
+        "id_placeholder_or_bad_pin_unresolved": "an attached id. citation whose antecedent (first full member of the list) is a FullCaseCitation with page None, or -- when the antecedent page is a decimal number p of <= 4300 digits and the pin cite is non-empty -- whose pin cite does not start (optionally after 'at ') with a decimal number q, or q < p, or q > p + 150. Nothing is claimed for antecedents without a numeric page; journal/law placeholder pages are an observation only",
+    },
+    "C08": {
+        "prefix_stability": "for every k: resolve(cits[:k]) has exactly the keys (by ==) of resolve(cits) restricted to members among cits[:k] (empty restrictions dropped), with identical member objects in the same order; the order AMONG resources is not compared",
+        "causal": "every non-full member of a list has a larger input index than the list's first member, which is a FullCitation",
+    },
+    "C09": {
+        "strip_inserted_restores_target": "output with every occurrence of each non-empty before/after string deleted == (source if source is non-empty and != plain else plain); before/after are private-use sentinels absent from the texts; a raise is an observation, not a violation",
+    },
+    "C10": {
+        "exact_once_in_order": "(A) no source, mode unchecked (skip/wrap only for texts without angle brackets): every annotation with start < end that intersects no annotation sorting before it occurs exactly once as before+plain[s:e]+after, and these occurrences are in span order",
+        "monotone_in_range": "(B) for len(a) >= 1, each engine, each of bisect_left/bisect_right: o -> SpanUpdater(a,b).update(o, bisect) is non-decreasing on 0..len(a) with values in [0, len(b)]",
+        "encloses_plain_span": "(C) default engine, source = plain with insertions of characters foreign to plain, annotations non-empty and pairwise non-overlapping: output == source with before_k put right before the source position of plain[s_k] and after_k right after that of plain[e_k-1] (difflib deviations are an observation)",
+    },
+    "C11": {
+        "output_well_formed": "lxml.etree.fromstring('<div>'+output+'</div>') succeeds (skip and wrap)",
+        "wrap_all_present": "wrap: every annotation with a non-empty span that intersects no annotation sorting before it has its before string in the output",
+        "skip_never_unbalanced": "skip: for every emitted annotation the text between its before string and the next </a> parses as balanced markup",
+        "text_content_unchanged": "text content of the parsed output == plain (only judged when the output parses)",
+    },
+    "C16": {
+        "case_eq_iff": "two case citations (full or short) with non-None pages: (a == b), (hash(a) == hash(b)) and, for full ones, (Resource(a) == Resource(b)) and equality of the resource hashes all equal [same class, same groups.get('volume'), same page, same corrected_reporter()]",
+        "variation_equals_canonical": "for every variation string of reporters_db.REPORTERS whose EDITIONS_LOOKUP entry is exactly one edition: the citation extracted from '1 <variation> 1' ==, hash-equals and resource-equals the one from '1 <edition short name> 1' (both must be extracted as exactly one FullCaseCitation spelled that way, else skipped)",
+        "irrelevant_context": "the citation with the same volume/reporter/page groups extracted from a text with pin cite / year / parties / parenthetical / surrounding text / nominative parenthetical == the one extracted from the bare core",
+        "placeholder_identity": "a CASE citation with page None is ==/hash-equal to no other object, and its Resource equals no other full citation's Resource (journal/law placeholders: observation only)",
+        "id_unknown_identity": "an IdCitation / UnknownCitation is ==/hash-equal to no other object",
+        "cross_kind_never_equal": "objects of two different classes among FullCaseCitation, ShortCaseCitation, FullLawCitation, FullJournalCitation are never ==",
+        "reparse_fixed_point": "for '1 <reporter> 1' extracted as one FullCaseCitation c: get_citations(c.corrected_citation()) contains a citation == c whose corrected_citation() is the same text",
+        "equivalence_laws": "== is reflexive, symmetric, transitive over the pool and a == b implies hash(a) == hash(b)",
+    },
+    "C20": {
+        "composition": "clean_text(t, a+b) == clean_text(clean_text(t, a), b)",
+        "unknown_step_raises_ValueError": "a step list containing a string that is not a cleaner name raises ValueError (at any position)",
+        "<cleaner>/<law>": "model_equal, idempotent, no_remaining_run, others_kept_in_order, erasure_equality of checks/c20_standin.py",
+        "html_visible_text": "eyecite.clean.html(markup) == clean_text(markup, ['html']) == ' '.join(text nodes that are not whitespace-only and whose parent is not script/style/head/link, in document order)",
+    },
+}
 
 RUNNERS: Dict[str, Callable[..., None]] = {
     "C06": lambda col, seed, n, focus, hints: run_resolution("C06", col, seed, n, focus, hints),
